@@ -119,12 +119,15 @@ Fixpoint sweep_loop (pin : Z) (s e : Q) (steps : Z) (step_delay : Z) (k : nat) (
       (st2, e1 ++ dl step_delay ++ e3)
   end.
 
+(* step_delay = (steps > 0) ? (total / (unsigned long)steps) : 0UL *)
+Definition step_delay_of (total steps : Z) : Z := if 0 <? steps then total / steps else 0.
+
 Definition sweep (pin : Z) (sq eq dq stepsq : Q) (st : bz) : bz * list ev :=
   let s := clamp0 sq in
   let e := clamp0 eq in
   let total := c_ulong dq in
-  let steps := Z.max 1 (c_int stepsq) in            (* if (steps < 1) steps = 1 *)
-  let step_delay := total / steps in                (* unsigned long division; steps >= 1 *)
+  let steps := Z.max 0 (c_int stepsq) in            (* if (steps < 0) steps = 0: no step, no tone *)
+  let step_delay := step_delay_of total steps in    (* unsigned long division, guarded against steps = 0 *)
   let '(st1, e1) := sweep_loop pin s e steps step_delay (Z.to_nat steps) 0 st in
   (quiet st1, e1 ++ [NoTone pin]).
 
